@@ -310,6 +310,22 @@ def gen_cross_ins_any(rng, doc, texts):
     return []
 
 
+def gen_hf_ins_edit(rng, doc, texts):
+    """one edit on text of a pending insertion that sits in a header / footer story: inside the insertion, or crossing
+    its boundary (list with 0 or 1 edit)"""
+    body = sem.body_story_index(doc)
+    pvs = [ParaView(si, pi, p) for pi, (si, p) in enumerate(sem.all_paragraphs(doc)) if si != body]
+    pvs = [pv for pv in pvs if any(c["state"] == "ins" for c in pv.acc)]
+    rng.shuffle(pvs)
+    word = WordSource(rng)
+    for pv in pvs[:6]:
+        t = pick_target(rng, pv, texts, states=("ins",), max_len=10) if rng.random() < 0.6 else pick_cross_ins_any(rng, pv, texts)
+        if t:
+            kind = rng.choice(["replace", "replace", "delete", "shared", "extend"])
+            return [{**t, "kind": kind, "new": new_text_for(rng, t["target"], kind, word), "comment": None, "locatable": True}]
+    return []
+
+
 def gen_block_prefix_edit(rng, doc, texts):
     """new paragraphs / a heading put in front of the first words of a paragraph (the first paragraph of the body
     when a header precedes it, else any paragraph start); -> list with 0 or 1 edit"""
